@@ -7,7 +7,8 @@ EXTENDS Ast, TLC, Json
 
 CONSTANT MaxDepth
 
-FailKinds == {"assert", "nil", "index", "index_empty", "zerodiv", "overflow", "remove", "remove_empty", "key_strindex"}
+FailKinds == {"assert", "nil", "index", "index_empty", "zerodiv", "overflow", "remove", "remove_empty", "key_strindex",
+              "zerodiv_assign", "zerorem_assign", "zerodiv_elem", "assert_sameline", "nil_sameline"}
 Positions == {"plain", "inif", "inwhile"}
 LevelKinds == {"fn", "method", "callback"}
 
@@ -22,8 +23,17 @@ Next == (\E k \in LevelKinds : Extend(k)) \/ (\E s \in 0..MaxDepth : Finish(s))
 CN(k) == "c" \o ToString(k)
 FT == "fn(int) -> int"
 
+(* the failing construct on one source line, after multi-byte text (positions count characters) *)
+OneLine(st) == [k |-> "if", c |-> Bin("!=", S("größe 日本"), S("x")), t |-> <<st>>, e |-> <<>>, haselse |-> FALSE, elif |-> FALSE, oneline |-> TRUE]
+OpAssign(target, op, e) == [k |-> "assign", target |-> target, op |-> op, e |-> e]
 FailCore ==
-    CASE kind = "assert" -> <<Assert(Bin("==", V("d"), I(12345)))>>
+    CASE kind = "assert_sameline" -> <<OneLine(Assert(Bin("==", V("d"), I(12345))))>>
+      [] kind = "nil_sameline" -> <<LetT("o", "int?", Nil), OneLine(Print(Get(V("o"))))>>
+      [] kind = "zerodiv_assign" -> <<Let("q", I(7)), Let("z", Bin("-", V("d"), V("d"))), OpAssign(V("q"), "/", V("z")), Print(V("q"))>>
+      [] kind = "zerorem_assign" -> <<Let("q", I(7)), Let("z", Bin("-", V("d"), V("d"))), OpAssign(V("q"), "%", V("z")), Print(V("q"))>>
+      [] kind = "zerodiv_elem" -> <<LetT("xs", "[int...]", List(<<I(7)>>)), Let("z", Bin("-", V("d"), V("d"))), Let("k0", I(0)),
+                                    OpAssign(Idx(V("xs"), V("k0")), "/", V("z")), Print(V("xs"))>>
+      [] kind = "assert" -> <<Assert(Bin("==", V("d"), I(12345)))>>
       [] kind = "nil" -> <<LetT("o", "int?", Nil), Print(Get(V("o")))>>
       [] kind = "index" -> <<LetT("xs", "[int...]", List(<<I(1)>>)), Let("k", V("d")), Print(Idx(V("xs"), V("k")))>>
       [] kind = "index_empty" -> <<LetT("xs", "[int...]", List(<<>>)), Let("k", Bin("-", V("d"), V("d"))), Print(Idx(V("xs"), V("k")))>>
